@@ -512,8 +512,33 @@ func freshDecodeTarget(c ssa.CallInstruction) bool {
 		return false
 	}
 	tgt := args[1]
+	return freshTarget(tgt, 0)
+}
+
+// freshTarget: v is the address of a local nothing has stored into — possibly handed down through helper parameters, in which
+// case every caller must hand down such a local.
+func freshTarget(tgt ssa.Value, depth int) bool {
 	if mi, ok := tgt.(*ssa.MakeInterface); ok {
 		tgt = mi.X
+	}
+	if p, ok := tgt.(*ssa.Parameter); ok && depth < 3 && theWorld != nil {
+		sites := theWorld.callSitesOf(p.Parent())
+		idx := -1
+		for i, q := range p.Parent().Params {
+			if q == p {
+				idx = i
+			}
+		}
+		if len(sites) == 0 || idx < 0 {
+			return false
+		}
+		for _, c := range sites {
+			a := c.Common().Args
+			if c.Common().IsInvoke() || idx >= len(a) || !freshTarget(a[idx], depth+1) {
+				return false
+			}
+		}
+		return true
 	}
 	al, ok := tgt.(*ssa.Alloc)
 	if !ok {
